@@ -61,7 +61,37 @@ def dead_status_false(e):
 
 
 def check(run, ctx):
-    run.each(ctx, [r1, r2, r3, r4, r5, r6, r7])
+    run.each(ctx, [r1, r2, r3, r4, r5, r6, r7, r8])
+
+
+def r8(run, ctx):
+    run.rule('R8', 'spawn_process reports success only for a worker it created')
+    # manage_processes / _reload / spawn_processes count on it: a call that comes back
+    # "ok" (anything but False/None) without having built a Process leaves the deficit
+    # in place (or, in a graceful reload, the old generation) and nobody retries
+    f = ctx.fn(W + 'spawn_process')
+    cfg = ctx.cfg(f)
+    cons = ctx.nodes_calling(f, ['circus.process:Process.__init__'])
+    if not run.need('R8', cons, 'Process construction in spawn_process', f):
+        return
+    assume = status_assumption('stopped', False)
+    r = reach_under(cfg, cfg.entry, assume, avoid=cons)
+    n = 0
+    for ret in cfg.nodes:
+        if ret.kind != 'stmt' or not isinstance(ret.ast, ast.Return):
+            continue
+        v = ret.ast.value
+        if v is None or (isinstance(v, ast.Constant) and v.value in (None, False)):
+            continue
+        n += 1
+        run.check('R8', ret.id not in r, 'a success result of spawn_process follows the '
+                  'creation of a worker (active watcher)', f, ret.ast,
+                  'spawn_process of a watcher that is not stopped can answer "ok" without '
+                  'having created a worker: the caller (periodic check, reload, start loop) '
+                  'takes the worker for started, so the count stays short or the old '
+                  'generation survives a reload',
+                  path=ctx.path_text(f, path_under(cfg, cfg.entry, ret, assume, avoid=cons) or []))
+    run.count('R8', n, 1, 'success returns of spawn_process')
 
 
 def r7(run, ctx):
